@@ -332,6 +332,11 @@ pub fn workload_templates(rng: &mut Rng) -> (Vec<String>, String) {
     (forms, format!("templates:{}", names.join("+")))
 }
 
+pub fn workload_deep(rng: &mut Rng) -> (Vec<String>, String) {
+    let (forms, names) = crate::gen::templates_deep::deep_session(rng);
+    (forms, format!("deep:{}", names.join("+")))
+}
+
 pub fn workload_g05(rng: &mut Rng) -> (Vec<String>, String) {
     let g = crate::gen::g05::session(rng);
     (g.forms.iter().map(|f| f.text()).collect(), "G05".into())
@@ -347,6 +352,13 @@ pub fn workload_mixed(rng: &mut Rng) -> (Vec<String>, String) {
         0 | 1 => workload_g01(rng),
         2 => workload_g05(rng),
         3 => workload_g02(rng),
+        4 => {
+            if rng.chance(1, 3) {
+                workload_deep(rng)
+            } else {
+                workload_templates(rng)
+            }
+        }
         _ => workload_templates(rng),
     }
 }
